@@ -1094,6 +1094,110 @@ def _mk_dst(realfn, name):
     return f
 
 
+def direct_convolve(X, P, mode='full'):
+    """N-d (1 or 2) convolution by the defining sum (reference for scipy.signal.fftconvolve)."""
+    X = _np.asarray(X, dtype=object if has_sym(X) or has_sym(P) else float)
+    P = _np.asarray(P, dtype=X.dtype)
+    if X.ndim == 1:
+        n, m = X.shape[0], P.shape[0]
+        full = _np.empty(n + m - 1, dtype=X.dtype)
+        for k in range(n + m - 1):
+            tot = 0.0
+            for a in range(max(0, k - m + 1), min(n, k + 1)):
+                tot = tot + X[a] * P[k - a]
+            full[k] = tot
+        if mode == 'full':
+            return full
+        if mode == 'valid':
+            lo, hi = min(n, m) - 1, max(n, m)
+            return full[lo:hi]
+        if mode == 'same':
+            lo = (m - 1) // 2
+            return full[lo:lo + n]
+        raise ValueError(mode)
+    n1, n2 = X.shape
+    m1, m2 = P.shape
+    full = _np.empty((n1 + m1 - 1, n2 + m2 - 1), dtype=X.dtype)
+    for k in range(n1 + m1 - 1):
+        for l in range(n2 + m2 - 1):
+            tot = 0.0
+            for a in range(max(0, k - m1 + 1), min(n1, k + 1)):
+                for b in range(max(0, l - m2 + 1), min(n2, l + 1)):
+                    pv = P[k - a, l - b]
+                    if not is_sym(pv) and pv == 0:
+                        continue
+                    tot = tot + X[a, b] * pv
+            full[k, l] = tot
+    if mode == 'full':
+        return full
+    if mode == 'valid':
+        return full[m1 - 1:n1, m2 - 1:n2]
+    if mode == 'same':
+        l1, l2 = (m1 - 1) // 2, (m2 - 1) // 2
+        return full[l1:l1 + n1, l2:l2 + n2]
+    raise ValueError(mode)
+
+
+def _fftconvolve(in1, in2, mode='full', axes=None):
+    if has_sym(in1) or has_sym(in2):
+        _used('signal.fftconvolve (direct-sum reference, validated against scipy)')
+        return direct_convolve(in1, in2, mode)
+    return _sp.signal.fftconvolve(conc(_np.asarray(in1)), conc(_np.asarray(in2)), mode=mode, axes=axes)
+
+
+def _convolve1d(input, weights, axis=-1, output=None, mode='reflect', cval=0.0, origin=0):
+    if has_sym(input) or has_sym(weights):
+        raise NotImplementedError('symx: convolve1d on symbolic data')
+    return _sp.ndimage.convolve1d(conc(_np.asarray(input)), conc(_np.asarray(weights)), axis=axis, output=output, mode=mode, cval=cval, origin=origin)
+
+
+def validate_stubs(seed=0):
+    """Concrete validation of the contract stubs against the real kernels (run at the start of checks)."""
+    rng = _np.random.RandomState(seed)
+    errs = []
+    X, P = rng.randn(6, 5), rng.randn(3, 2)
+    for mode in ('full', 'valid', 'same'):
+        if not _np.allclose(direct_convolve(X, P, mode).astype(float), _sp.signal.fftconvolve(X, P, mode=mode), atol=1e-10):
+            errs.append('fftconvolve 2d ' + mode)
+    x, p = rng.randn(7), rng.randn(3)
+    for mode in ('full', 'valid', 'same'):
+        if not _np.allclose(direct_convolve(x, p, mode).astype(float), _sp.signal.fftconvolve(x, p, mode=mode), atol=1e-10):
+            errs.append('fftconvolve 1d ' + mode)
+    # linear kernels
+    v, w = rng.randn(5), rng.randn(5)
+    for fn, nm in ((_sp.fftpack.dst, 'dst'), (_sp.fftpack.idst, 'idst')):
+        if not _np.allclose(fn(2 * v - 3 * w), 2 * fn(v) - 3 * fn(w), atol=1e-10):
+            errs.append(nm + ' linearity')
+    # scipy.stats closed forms
+    xs = rng.rand(3) + 0.2
+    chk = [
+        (_sp.stats.gamma.logpdf(xs, a=2.5, loc=0, scale=0.7), [float(_gamma_logpdf(t, a=2.5, loc=0, scale=0.7)) for t in xs], 'gamma.logpdf'),
+        (_sp.stats.invgamma.logpdf(xs, a=2.5, loc=-0.1, scale=0.7), [float(_invgamma_logpdf(t, a=2.5, loc=-0.1, scale=0.7)) for t in xs], 'invgamma.logpdf'),
+        (_sp.stats.beta.logpdf(xs / 2, a=2.5, b=1.5), [float(_beta_logpdf(t / 2, a=2.5, b=1.5)) for t in xs], 'beta.logpdf'),
+        (_sp.stats.norm.logpdf(xs, loc=0.3, scale=0.7), [float(_norm_logpdf(t, loc=0.3, scale=0.7)) for t in xs], 'norm.logpdf'),
+        (_sp.stats.cauchy.logpdf(xs, loc=0.3, scale=0.7), [float(_cauchy_logpdf(t, loc=0.3, scale=0.7)) for t in xs], 'cauchy.logpdf'),
+    ]
+    for a, b, nm in chk:
+        if not _np.allclose(a, b, atol=1e-10):
+            errs.append(nm)
+    # LAPACK contracts on concrete data (through the symbolic routines with float entries)
+    A = rng.randn(3, 3)
+    A = A @ A.T + 3 * _np.eye(3)
+    if not _np.allclose(_np.asarray(sym_inv(A), dtype=float), _np.linalg.inv(A), atol=1e-9):
+        errs.append('inv')
+    if not _np.allclose(float(sym_det(A)), _np.linalg.det(A), rtol=1e-9):
+        errs.append('det')
+    if not _np.allclose(_np.asarray(sym_cholesky(A), dtype=float), _np.linalg.cholesky(A), atol=1e-9):
+        errs.append('cholesky')
+    b = rng.randn(3)
+    T = _np.triu(A)
+    if not _np.allclose(_np.asarray(sym_solve_triangular(A, b, lower=False), dtype=float), _sp.linalg.solve_triangular(A, b, lower=False), atol=1e-9):
+        errs.append('solve_triangular upper')
+    if not _np.allclose(_np.asarray(sym_solve_triangular(A, b, lower=True), dtype=float), _sp.linalg.solve_triangular(A, b, lower=True), atol=1e-9):
+        errs.append('solve_triangular lower')
+    return errs
+
+
 # --------------------------------------------------------------------------
 # facade construction and installation
 
@@ -1157,9 +1261,10 @@ def build():
         'dst': _mk_dst(_sp.fftpack.dst, 'fftpack.dst'),
         'idst': _mk_dst(_sp.fftpack.idst, 'fftpack.idst'),
     }, 'scipy.fftpack')
+    signal = Facade(_sp.signal, {'fftconvolve': _fftconvolve}, 'scipy.signal')
     spf = Facade(_sp, {
         'linalg': sp_linalg, 'sparse': sparse, 'stats': stats, 'special': special,
-        'fftpack': fftpack,
+        'fftpack': fftpack, 'signal': signal,
     }, 'scipy')
 
     modmap = {
@@ -1179,6 +1284,8 @@ def build():
         id(_sp.special.erf): special.erf,
         id(_sp.fftpack.dst): fftpack.dst,
         id(_sp.fftpack.idst): fftpack.idst,
+        id(_sp.signal.fftconvolve): _fftconvolve,
+        id(_sp.ndimage.convolve1d): _convolve1d,
     }
     class _NeverEqual:
         def __eq__(self, o):
